@@ -203,3 +203,9 @@ func init() {
 	prop("C17", "C17-R6")
 	prop("C19", "C17-R6")
 }
+
+func init() {
+	prop("C01", "C01-R10")
+	prop("C20", "C01-R10")
+	prop("C09", "C01-R10")
+}
